@@ -68,7 +68,7 @@ def gen(tier, seed):
     rnd = random.Random(seed)
     cases = []
     tries = 0
-    want = 200 if tier == "quick" else 4000
+    want = 200 if tier == "quick" else 8000
     while len(cases) < want and tries < 50 * want:
         tries += 1
         na, nb = rnd.randint(1, 4), rnd.randint(1, 4)
